@@ -53,6 +53,7 @@ const (
 	FNil         = "nil"                // returns nil
 	FTypedNil    = "typednil"           // returns (*Tok)(nil) / (*string)(nil)
 	FThunk       = "thunk"              // returns a thunk that yields the normal value
+	FThunk2      = "thunk2"             // returns a thunk that yields another thunk, which yields the normal value
 	FThunkErr    = "thunk_err"          // thunk returns an error
 	FThunkPanic  = "thunk_panic"        // thunk panics
 	FThunkNil    = "thunk_nil"          // thunk returns nil
@@ -66,6 +67,7 @@ const (
 	FNotIter     = "notiter"            // non-iterable for a list position
 	FRTNil       = "rt_nil"             // ResolveType returns nil
 	FRTWrong     = "rt_wrong"           // ResolveType returns a non-possible object type
+	FRTOther     = "rt_other"           // ResolveType returns a possible type of another abstract type, not of this one
 	FRTPanic     = "rt_panic"           // ResolveType panics
 	FITFalse     = "it_false"           // IsTypeOf returns false
 	FITPanic     = "it_panic"           // IsTypeOf panics
@@ -75,6 +77,7 @@ const (
 	FErrMsg      = "errmsg:"            // prefix: resolver returns (nil, errors.New(rest))
 	FForeignErr  = "foreign_err"        // resolver returns a FormattedError taken from another response (own path and locations)
 	FSentinelErr = "sentinel_err"       // resolver returns a process-wide *gqlerrors.Error value
+	FSharedErr   = "shared_err"         // resolver returns one package-level error value (like sql.ErrNoRows) wherever it fires
 	FElemPanic   = "elem_panic"         // list of leaves: element 1 makes the leaf's Serialize panic
 	FElemThunk   = "elem_thunk"         // list: every element is a thunk yielding the normal element
 	FCancelCtx   = "cancel_ctx"         // resolver cancels the request context (then returns normally)
@@ -266,6 +269,8 @@ func normalizeForJSON(v interface{}) interface{} {
 // QueryOnlyWorld makes NewWorld build a schema without mutation and
 // subscription roots (set and reset around NewWorld by the caller).
 var QueryOnlyWorld bool
+
+var errSharedFailure = errors.New("shared failure value")
 
 // WorldBOnlyField gives world "B" a root field (onlyB) that world "A" lacks, so
 // that a document can be valid for one schema and invalid for the other.
@@ -709,6 +714,8 @@ func (w *World) resolverInner(coord string) graphql.FieldResolveFn {
 			return nil, fe
 		case FSentinelErr:
 			return nil, sentinelError
+		case FSharedErr:
+			return nil, errSharedFailure
 		case FErr:
 			return nil, fmt.Errorf("boom %s", path)
 		case FValErr:
@@ -731,13 +738,13 @@ func (w *World) resolverInner(coord string) graphql.FieldResolveFn {
 				return (*string)(nil), nil
 			}
 			return (*Tok)(nil), nil
-		case FThunk, FThunkErr, FThunkPanic, FThunkNil, FThunkValErr:
-			return func() (interface{}, error) {
+		case FThunk, FThunk2, FThunkErr, FThunkPanic, FThunkNil, FThunkValErr:
+			thunk := func() (interface{}, error) {
 				rc.logf("T+" + path)
 				w.gate(rc, "thunk:"+coord, path)
 				defer rc.logf("T-" + path)
 				tf := rc.Faults["T@"+path]
-				if fault != FThunk {
+				if fault != FThunk && fault != FThunk2 {
 					tf = fault
 				}
 				switch tf {
@@ -755,7 +762,11 @@ func (w *World) resolverInner(coord string) graphql.FieldResolveFn {
 					return nil, nil
 				}
 				return val(), nil
-			}, nil
+			}
+			if fault == FThunk2 {
+				return func() (interface{}, error) { return thunk, nil }, nil
+			}
+			return thunk, nil
 		case FThunkBad:
 			return func() int { return 1 }, nil
 		case FWrongKind:
@@ -855,6 +866,14 @@ func (w *World) resolveType(p graphql.ResolveTypeParams, abstract string) *graph
 			case FRTNil:
 				return nil
 			case FRTWrong:
+				return w.Obj["Item"]
+			case FRTOther:
+				switch abstract {
+				case "U":
+					return w.Obj["C"] // a Node, not a U
+				case "Solo":
+					return w.Obj["A"] // a Node and a U, not a Solo
+				}
 				return w.Obj["Item"]
 			case FRTPanic:
 				panic(fmt.Errorf("resolveType panic %s", path))
